@@ -163,7 +163,7 @@ def pressure(t, gp_before, sse_before):
     if need is None:
         return "mem-class"
     def rel(n, free):
-        if n == 0: return "-" if free > 0 else "-(0 free)"
+        if n == 0: return "-" if free > 0 else "-/0free"
         if free > n: return "room"
         if free == n: return "last"
         return "short" if free > 0 else "none"
